@@ -250,7 +250,7 @@ def trace_violation(e, rj, cls):
         'summary': {'grammar': e.gid, 'rules': ['%s -> %s%s' % (l, ' '.join(r) or 'eps', ' [%d]' % p if p else '') for (l, r, p) in e.g.rules],
                     'input': bytes(t['bytes']).decode('latin-1'), 'options': {'verbose': t['verbose'], 'ws': t['ws'], 'nl': t['nl'], 'stream': t['stream']},
                     'class': cls, 'spec_expected': rj['why'], 'real_event': evs[pos - 1] if 0 < pos <= len(evs) else None, 'real_ok': t['ok']},
-        'kind': 'parser', 'gname': e.g.name, 'mode': e.mode, 'gid': e.gid, 'dflt': list(getattr(e, 'dflt', ())), 'lexterms': getattr(e, 'lexterms', None), 'clex': getattr(e, 'clex', False), 'ctxr': list(getattr(e, 'ctx', ())), 'postprec': list(getattr(e, 'postprec', ())), 'ctx': t.get('ctx', 0),
+        'kind': 'parser', 'gname': e.g.name, 'mode': e.mode, 'gid': e.gid, 'dflt': list(getattr(e, 'dflt', ())), 'lexterms': getattr(e, 'lexterms', None), 'lexshape': getattr(e, 'lexshape', 'list'), 'clex': getattr(e, 'clex', False), 'ctxr': list(getattr(e, 'ctx', ())), 'postprec': list(getattr(e, 'postprec', ())), 'ctx': t.get('ctx', 0),
         'grammar': {'nts': e.g.nts, 'ts': e.g.ts, 'root': e.g.root, 'rules': e.g.rules, 'tprec': e.g.tprec, 'tassoc': e.g.tassoc},
         'bytes': t['bytes'], 'ws': t['ws'], 'nl': t['nl'], 'verbose': t['verbose'], 'stream': t['stream'], 'buf': t['buf']}
 
@@ -376,6 +376,9 @@ def check_C09(tier, seed):
     # character' must appear exactly where NO term matches
     import lx as lxl
     lex_entries = [pipeline.lex_entry('c09lex%d' % i, lxl.FAMILIES[i]) for i in ((0, 2, 5) if tier == 'quick' else (0, 1, 2, 3, 5, 6, 12))]
+    # terms with display names of their own (regex_term's custom name, wrapped in typed_term) in a grammar where token ORDER
+    # matters: the one message must name the offending term as the grammar's author named it
+    lex_entries.append(pipeline.lex_entry('c09named', [lxl.R('[1-9][0-9]*', 'number'), lxl.C('+'), lxl.R('[a-z]+', 'ident'), lxl.S('if')], shape='pairs'))
     for el in lex_entries:
         alpha = sorted({b for t in el.lexterms for b in ([t[1]] if t[0] == 'C' else t[1]) if 32 < b < 127 and chr(b) not in '[]()*+?|{}\\^-.'} | {ord('i'), ord('1'), ord('+'), ord('=')})[:7]
         ins = []
@@ -627,7 +630,7 @@ def check_C05(tier, seed):
     nassign = 0
     for g in bases:
         ops = [t for t in g.ts if t not in ('n', 'x', 'i')]
-        choices = [(p, a) for p in (0, 1, 2) for a in (0, 1, 2)]
+        choices = [(p, a) for p in (0, 1, 2, -1) for a in (0, 1, 2)]
         combos = list(itertools.product(choices, repeat=len(ops)))
         if tier == 'quick' and len(combos) > 30:
             combos = rng.sample(combos, 30)
@@ -639,7 +642,7 @@ def check_C05(tier, seed):
             ta = {o: c[1] for o, c in zip(ops, combo)}
             rp = None
             if ci % 4 == 3:     # explicit rule precedences on some rules, including ones without any term
-                rp = {i: rng.choice([1, 2, 3]) for i in range(len(g.rules)) if rng.random() < 0.4}
+                rp = {i: rng.choice([1, 2, 3, -1, -2]) for i in range(len(g.rules)) if rng.random() < 0.4}
             g2 = with_prec(g, '%s_a%d' % (g.name, ci), tp, ta, rp)
             try:
                 entries.append(pipeline.host_entry(g2, 0))
@@ -1270,8 +1273,23 @@ def check_C06(tier, seed):
         else:
             t0 = ord(g.ts[0])
             ins = [[t0] * N, [t0, 32, 10] * N, [t0] * N + [0], [0x80] * 10]
+        # growth boundaries of the std::vector stacks (initial reserve 1024, then doubling): a reduction or a shift that
+        # happens exactly when size == capacity reallocates while values are being read
+        edge = []
+        for cap_ in (1024, 2048) if tier == 'quick' else (1024, 2048, 4096, 8192):
+            for d in range(cap_ - 5, cap_ + 4):
+                if n == 'paren':
+                    edge.append([ord('(')] * d + [ord('x')] + [ord(')')] * d)
+                elif n == 'dyck':
+                    edge.append([ord('(')] * d + [ord(')')] * d)
+                elif n == 'expr_strat':
+                    edge.append([ord('(')] * d + [ord('n')] + [ord(')')] * d)
+                else:
+                    edge.append([ord(g.ts[0])] * d)
         for b in (0, 1, 3):
             pipeline.add_jobs(e, ins, buf=b, verbose=False, tag='b%d_' % b)
+        for b in (0, 1):
+            pipeline.add_jobs(e, edge, buf=b, verbose=False, tag='e%d_' % b)
         big.append(e)
     nbig = 0
     for (label, binp, env) in (('plain', hostbins['host0'], {'VERIF_LIGHT': '1'}), ('asan+ubsan', asan, {'VERIF_LIGHT': '1', 'ASAN_OPTIONS': 'detect_leaks=0:abort_on_error=0', 'VERIF_JOB_TIMEOUT': '120'})):
@@ -1417,6 +1435,26 @@ def check_C07(tier, seed):
             if k not in seen:
                 seen.add(k); uniq.append((list(b), ws, nl))
         cases_by[e.gid] = uniq
+    # ---- token-list parsers over multi-character terms (string / regex terms: the value IS the lexeme, NUL and high bytes included)
+    import lx as lxl, gen_tu
+    lsets = [('ctlexA', [lxl.R('[^ab\\x20\\x0a]+'), lxl.S('ab'), lxl.C('a')], [0, 0x80, ord('a'), ord('b'), ord('x'), 32],
+              [list(b'x\x00y ab a'), list(b'\x00'), list(b'ab\x00\x00a'), list(b'xy\x00'), list(b'a\x00b')]),
+             ('ctlexB', [lxl.R('"[^"]*"'), lxl.R('[0-9]+'), lxl.C(',')], [ord('"'), ord('1'), ord(','), 0, ord('z')],
+              [list(b'"a\x00b",12'), list(b'"\x00"'), list(b'"",""'), list(b'12,"z\x00\x00"'), list(b'"abc'), list(b'1 2,\n3')])]
+    if tier != 'quick':
+        lsets.append(('ctlexC', [lxl.S('if'), lxl.R('[a-z]+'), lxl.C('+'), lxl.S('++')], [ord('i'), ord('f'), ord('+'), ord('x'), 32], [list(b'if ifx x+++if'), list(b'i+f')]))
+    for (nm, ts, alpha, curated) in lsets:
+        e = pipeline.lex_entry(nm, ts)
+        entries.append(e)
+        ins = [(s, 1, 1) for s in gram.all_strings(alpha, 3)]
+        ins = ins[::max(1, len(ins) // (45 if tier == 'quick' else 150))]
+        ins += [(s, 1, 1) for s in curated] + [(s, 0, 1) for s in curated[:2]]
+        seen, uniq = set(), []
+        for (b, ws, nl) in ins:
+            k = (tuple(b), ws, nl)
+            if k not in seen:
+                seen.add(k); uniq.append((list(b), ws, nl))
+        cases_by[e.gid] = uniq
     # ---- expected behaviours generated by TLC from the specification
     given = [(e.gid, tuple(b), bool(ws), bool(nl)) for e in entries for (b, ws, nl) in cases_by[e.gid]]
     verd, rv = prun.spec_verdicts(entries, given, 'C07v', tlc_workers=8)
@@ -1432,12 +1470,18 @@ def check_C07(tier, seed):
             if v['status'] not in ('acc', 'rej'):
                 continue
             ok = v['status'] == 'acc'
-            val = gen_ct.hash_tree(v['nodes'], v['root'], e.tla['tbytes']) if ok else 0
+            if hasattr(e, 'lexterms'):
+                val = gen_ct.hash_lex_tree(v['nodes'], v['root'], list(b)) if ok else 0
+            else:
+                val = gen_ct.hash_tree(v['nodes'], v['root'], e.tla['tbytes']) if ok else 0
             nempty = sum(1 for (_, r, _) in e.g.rules if not r)
             cases.append({'bytes': list(b), 'ws': ws, 'nl': nl, 'ok': ok, 'val': val, 'maxstack': v['maxstack'], 'cap': len(b) + 1 + nempty + 1})
         src = os.path.join(work, e.g.name + '_ct.cpp')
         with open(src, 'w') as f:
-            f.write(gen_ct.tu(e.g, cases))
+            if hasattr(e, 'lexterms'):
+                f.write(gen_ct.lex_tu(e.lexterms, gen_tu.lex_rules(len(e.lexterms), getattr(e, 'lexshape', 'list')), cases))
+            else:
+                f.write(gen_ct.tu(e.g, cases))
         tus.append((e, cases, src))
     inc = os.path.join(vlib.REPO, 'include')
 
@@ -1909,7 +1953,10 @@ def check_C15(tier, seed):
     entries = []
     for n in names:
         g = cat[n]
-        e = pipeline.host_entry(g, 1 if g.has_error() else 0, gid=n + '@thr')
+        try:
+            e = pipeline.host_entry(g, 1 if g.has_error() else 0, gid=n + '@thr')
+        except ValueError:
+            continue        # rule shapes the host translation units do not offer (threads run on host parsers only)
         ins = ws_inputs(g, 4 if len(g.ts) <= 2 else 3, [ord('?'), 32], 120 if tier == 'quick' else 500)      # accepted, failing, recovering calls mixed
         t0 = ord(g.ts[0])
         ins += [[0xe9], [t0, 0xe9], [t0, 0x80, t0], [0xff, t0], [t0, 32, 32, 32, 32, 32, 32, 32, 32, 32, 32, 32, ord('?')]]     # bytes >= 0x80 in messages, columns >= 10
@@ -2142,7 +2189,7 @@ def replay(pid, path):
         if v.get('clex'):
             e = pipeline.clex_entry(g)
         elif v.get('lexterms'):
-            e = pipeline.lex_entry(v['gname'], [tuple(t) for t in v['lexterms']])
+            e = pipeline.lex_entry(v['gname'], [tuple(t) for t in v['lexterms']], v.get('lexshape', 'list'))
         elif v['mode'] == 'gen':
             e = pipeline.gen_entry(g, dflt=v.get('dflt', ()), ctx=v.get('ctxr', ()), postprec=v.get('postprec', ()))
         else:
